@@ -188,8 +188,8 @@ def r1_owner_pointer(r, facts):
         elif kind == 'store':
             desc = _keeps_slot(facts, f, e) or _fresh_empty_store(facts, f, loc, e)
         elif kind.startswith('call:'):
-            if kind == 'call:std::option::Option::<T>::take' and f.path == RELEASE:
-                desc = 'take() in release'
+            if kind == 'call:std::option::Option::<T>::take' and f.path in (RELEASE, '<io::read_buf::ReadBuf as std::ops::Drop>::drop'):
+                desc = 'take() in release'      # (C08.R2 checks what happens to the taken pointer there)
         r.inst('%s: %s' % (f.path, desc or ('UNRECOGNISED ' + str(e))), f.where(loc))
         r.require(desc is not None, 'writer:%s' % f.path, 'ReadBuf.owned is written in an unrecognised way (%s %s): the slot given back on release may differ from the slot handed out' % (kind, e), f.where(loc))
     # change_size keeps the data pointer
@@ -208,13 +208,22 @@ def r1_owner_pointer(r, facts):
     r.floor(10, 'writers of ReadBuf.owned')
 
 
-def r2_release_once(r, facts):
-    f = facts.fn(RELEASE)
+def release_sites(facts):
+    """functions that call the pool-side release (today: ReadBuf::release only; a Drop that repeats its body is one too)"""
+    out = []
+    for g, loc, t in facts.callers.get(RELEASE_SYS, []):
+        if t['k'] == 'call' and g not in out:
+            out.append(g)
+    return out
+
+
+def _check_release_site(r, f, name):
+    """the take-then-release discipline inside one function"""
     eb = ExprBuilder(f, multi='phi')
     takes = [(loc, t) for loc, t in f.calls() if (t.get('callee') or '') == 'std::option::Option::<T>::take']
     rels = f.calls_to(RELEASE_SYS)
-    if not r.require(len(takes) == 1 and len(rels) == 1, 'ReadBuf::release', 'take()/pool release sites not found (take=%d release=%d)' % (len(takes), len(rels)), f.where()):
-        return
+    if not r.require(len(takes) == 1 and len(rels) == 1, name, 'take()/pool release sites not found (take=%d release=%d)' % (len(takes), len(rels)), f.where()):
+        return False
     tl, tt = takes[0]
     rl, rt = rels[0]
     some = None
@@ -222,26 +231,40 @@ def r2_release_once(r, facts):
         if si['place']['l'] == tt['dest']['l'] and not si['place']['p']:
             some = f.variant_edge(si, 'Some')
     r.inst('release under Some edge of take()', f.where(rl))
-    r.require(some is not None and f.edge_dominates(some, rl), 'ReadBuf::release/guard', 'the pool release is not guarded by the Some edge of self.owned.take(): a buffer could be given back twice', f.where(rl))
+    ok = r.require(some is not None and f.edge_dominates(some, rl), name + '/guard', 'the pool release is not guarded by the Some edge of self.owned.take(): a buffer could be given back twice', f.where(rl))
     # ... and on that edge it is unconditional: whatever the buffer's length after edits, its slot goes back
     if some is not None:
         hit = f.forward_paths_hit([Loc(some[1], 0)], f.returns(), blockers=[rl])
-        r.require(hit is None, 'ReadBuf::release/skipped', 'a ReadBuf that owns a pool buffer (self.owned is Some) can be released without giving the buffer back to the pool (an extra condition, e.g. on its length, sits between take() and the pool release): the slot is lost to the kernel', f.where(hit[0]) if hit else '')
+        ok = r.require(hit is None, name + '/skipped', 'a ReadBuf that owns a pool buffer (self.owned is Some) can be released without giving the buffer back to the pool (an extra condition, e.g. on its length, sits between take() and the pool release): the slot is lost to the kernel', f.where(hit[0]) if hit else '') and ok
     v = eb.operand(rt['args'][1])
-    r.require(any(x[0] == 'proj' and '@Some' in x[2] for x in subexprs(v)) and any(x[0] == 'call' and x[1].endswith('Option::<T>::take') for x in subexprs(v)),
-              'ReadBuf::release/value', 'the pointer released is not the one taken out of self.owned: %s' % (v,), f.where(rl))
+    ok = r.require(any(x[0] == 'proj' and '@Some' in x[2] for x in subexprs(v)) and any(x[0] == 'call' and x[1].endswith('Option::<T>::take') for x in subexprs(v)),
+                   name + '/value', 'the pointer released is not the one taken out of self.owned: %s' % (v,), f.where(rl)) and ok
+    tk = access_path(eb.operand(tt['args'][0]))
+    ok = r.require(tk is not None and tk[0][0] == 'arg' and tk[0][1] == 1 and tk[1].split('.')[-1] == 'owned', name + '/take', 'take() is not applied to self.owned', f.where(tl)) and ok
     sh = access_path(eb.operand(rt['args'][0]))
-    r.require(sh is not None and sh[1].endswith('shared'), 'ReadBuf::release/pool', 'the buffer is not released to its own pool (self.shared)', f.where(rl))
+    ok = r.require(sh is not None and sh[1].endswith('shared'), name + '/pool', 'the buffer is not released to its own pool (self.shared)', f.where(rl)) and ok
+    return ok
+
+
+def r2_release_once(r, facts):
+    f = facts.fn(RELEASE)
+    if not _check_release_site(r, f, 'ReadBuf::release'):
+        return
     d = facts.fn('<io::read_buf::ReadBuf as std::ops::Drop>::drop')
     n = len(d.calls_to(RELEASE))
-    r.inst('Drop calls release %d time(s)' % n, d.where())
-    r.require(n == 1, 'ReadBuf::drop', 'Drop of ReadBuf does not call release exactly once (%d)' % n, d.where())
+    own = len(d.calls_to(RELEASE_SYS))
+    r.inst('Drop calls release %d time(s)%s' % (n, ', releases by itself %d time(s)' % own if own else ''), d.where())
+    if own and not n:
+        # Drop repeats the body of release(): the same discipline is required of it
+        _check_release_site(r, d, 'ReadBuf::drop')
+    else:
+        r.require(n == 1 and not own, 'ReadBuf::drop', 'Drop of ReadBuf does not call release exactly once (%d)' % n, d.where())
     for tr in ('std::clone::Clone', 'std::marker::Copy'):
         r.require(not facts.has_impl(tr, READBUF), 'ReadBuf:%s' % tr, 'ReadBuf implements %s: two owners of one pool buffer' % tr)
     # nobody else calls the pool-side release
     for g, loc, t in facts.callers.get(RELEASE_SYS, []):
         if t['k'] == 'call':
-            r.require(g.path == RELEASE, 'caller:%s' % g.path, 'pool release called outside ReadBuf::release', g.where(loc))
+            r.require(g.path in (RELEASE, '<io::read_buf::ReadBuf as std::ops::Drop>::drop'), 'caller:%s' % g.path, 'pool release called outside ReadBuf::release', g.where(loc))
     r.floor(2)
 
 
